@@ -10,6 +10,7 @@ import (
 	"fmt"
 	"go/token"
 	"go/types"
+	"sort"
 
 	"golang.org/x/tools/go/ssa"
 
@@ -194,6 +195,8 @@ type unit struct {
 	writes  map[writeKey]Why // (root, written type) -> why (non-fresh roots only)
 	retains map[[2]int32]Why // from root -> to root
 	edgeWhy map[int32]Why    // non-fresh root -> first store that put a reference to it into a fresh object
+	cur     ssa.Instruction  // instruction being transferred
+	wAt     map[ssa.Instruction]map[writeKey]struct{}
 	compatC map[compatKey]bool
 	changed bool
 }
@@ -519,6 +522,14 @@ func (u *unit) recordWrite(r int32, t string, why Why) {
 		return
 	}
 	k := writeKey{r, t}
+	if u.cur != nil {
+		m := u.wAt[u.cur]
+		if m == nil {
+			m = map[writeKey]struct{}{}
+			u.wAt[u.cur] = m
+		}
+		m[k] = struct{}{}
+	}
 	if _, ok := u.writes[k]; !ok {
 		u.writes[k] = why
 		u.changed = true
@@ -606,6 +617,7 @@ func (u *unit) solve() {
 	u.retains = map[[2]int32]Why{}
 	u.edgeWhy = map[int32]Why{}
 	u.compatC = map[compatKey]bool{}
+	u.wAt = map[ssa.Instruction]map[writeKey]struct{}{}
 	for _, fn := range u.fns {
 		for i, p := range fn.Params {
 			if u.a.HasRefs(p.Type()) {
@@ -625,6 +637,7 @@ func (u *unit) solve() {
 		for _, fn := range u.fns {
 			for _, b := range fn.Blocks {
 				for _, ins := range b.Instrs {
+					u.cur = ins
 					u.transfer(fn, ins)
 				}
 			}
@@ -940,6 +953,88 @@ func within(g, fn *ssa.Function) bool {
 	for ; g != nil; g = g.Parent() {
 		if g == fn {
 			return true
+		}
+	}
+	return false
+}
+
+// WriteAt describes memory an instruction may write, in the vocabulary of the
+// top-level function of its unit (Kind RCParam: parameter Idx of closure Fn).
+type WriteAt struct {
+	Root SRoot
+	Fn   *ssa.Function
+	T    string
+}
+
+func (u *unit) xroot(r int32) (SRoot, *ssa.Function) {
+	rt := u.roots[r]
+	switch rt.kind {
+	case RGlobal:
+		return SRoot{Kind: RGlobal, G: rt.g}, nil
+	case RFresh:
+		return SRoot{Kind: RFresh}, nil
+	case RCParam:
+		return SRoot{Kind: RCParam, Idx: rt.idx, Depth: rt.depth}, rt.fn
+	}
+	return SRoot{Kind: RParam, Idx: rt.idx, Depth: rt.depth}, nil
+}
+
+// WritesAt lists the non-fresh memory instruction ins may write (directly or
+// through its callee).
+func (a *Analysis) WritesAt(ins ssa.Instruction) []WriteAt {
+	fn := ins.Parent()
+	u := a.units[fn]
+	if u == nil {
+		return nil
+	}
+	var out []WriteAt
+	for k := range u.wAt[ins] {
+		sr, f := u.xroot(k.r)
+		out = append(out, WriteAt{sr, f, k.t})
+	}
+	sort.Slice(out, func(i, j int) bool {
+		if out[i].Root.String() != out[j].Root.String() {
+			return out[i].Root.String() < out[j].Root.String()
+		}
+		return out[i].T < out[j].T
+	})
+	return out
+}
+
+// PT is one element of a points-to set: a root and, for fresh roots, the
+// allocating instruction.
+type PT struct {
+	Root SRoot
+	Fn   *ssa.Function
+	Site ssa.Value
+}
+
+// PointsTo returns the points-to set of v (a value of function fn).
+func (a *Analysis) PointsTo(fn *ssa.Function, v ssa.Value) []PT {
+	u := a.units[fn]
+	if u == nil {
+		return nil
+	}
+	var out []PT
+	for l := range u.val(v) {
+		sr, f := u.xroot(l.root)
+		out = append(out, PT{sr, f, u.roots[l.root].site})
+	}
+	return out
+}
+
+// MayAlias reports whether two values of fn may point into the same object.
+func (a *Analysis) MayAlias(fn *ssa.Function, x, y ssa.Value) bool {
+	u := a.units[fn]
+	if u == nil {
+		return true
+	}
+	xs, ys := u.val(x), u.val(y)
+	for l := range xs {
+		for m := range ys {
+			if l.root == m.root {
+				return true
+			}
 		}
 	}
 	return false
